@@ -25,11 +25,15 @@ package streams
 // Locations back to the edge host / to other hosts / https / with queries, flags per rule, entry
 // rule without cache, start node and prefix per request).
 //
-// The real server must never be allowed to recurse without bound inside the harness process: a
-// cycle through cached hops takes no origin I/O at all, so the performer's contact watchdog never
-// sees it.  Guard: a verifhook handler counts the activations of cachingFunc per client request
-// (point srv.after-flavors) and ends the request with a panic (recovered by the handler's own
-// sentry.Recover) when there are more than srcLimit; the case is then reported as `runaway`.  A
+// rrrouter counts the redirects it follows per client request, at every re-entry site of
+// cachingFunc, and answers 508 Loop detected after maxRedirects (10) of them (the repair of
+// findings C18-a / C18-c); `runaway` is not expected on any case any more.  The guard below stays
+// as protection: the real server must never be allowed to recurse without bound inside the harness
+// process, and a cycle through cached hops takes no origin I/O at all, so the performer's contact
+// watchdog would never see it.  Guard: a verifhook handler counts the activations of cachingFunc
+// per client request (point srv.after-flavors) and ends the request with a panic (recovered by
+// the handler's own sentry.Recover) when there are more than srcLimit; the case is then reported
+// as `runaway`.  A
 // request that parks in the 30 s sub-resource wait (point srv.wait) can only be waiting for a
 // lock held further up its OWN stack (the history is sequential): it is cut the same way and
 // reported as `selfwait`.  A history ends at the first cut.
@@ -525,13 +529,37 @@ func srcSharedRules(restartP bool) []hx.RuleSpec {
 		{Path: "/f/*", Dest: "http://d0.test/$1", Cache: "c1", RestartOnRedirect: true}}
 }
 
-// C18-c witnesses: a loop whose hops are all in the cache. The Found site of cachingFunc has no
-// loop check of any kind; the recursion takes no origin I/O (one open descriptor per level).
+// kf.C18-c: the witnesses of the former finding C18-c — a loop whose hops are all in the cache.
+// The Found site of cachingFunc compares no URLs; the recursion took no origin I/O (one open
+// descriptor per level) and never ended.  Repaired by the redirect counter in cachingFunc;
+// regression cases: the request through the restarting prefix is answered 508 Loop detected
+// without a single contact (cases 0-2).  Cases 3 and 4 were added with the repair: the counter
+// striking below nested writer activations (exactly one response must reach the client).
 func srcKfC(g *hx.Gen, id int) hx.Case {
 	srcMu.Lock()
 	defer srcMu.Unlock()
 	var c srcCase
-	switch id % 3 {
+	switch id % 5 {
+	case 3:
+		// the counter below nested WRITER activations: a 12-cycle, cold, through a cache-enabled
+		// restarting rule.  Ten writers nest (each with client writes disabled), the eleventh answer
+		// is a redirect again: 508 from the writer site straight to the client's own writer, then the
+		// ten hops are stored while the stack unwinds.  The repeat follows the ten stored hops (Found
+		// site), fetches the eleventh (it was not stored) and is answered 508 by the writer site again.
+		nodes := []srcNode{}
+		for i := 0; i < 12; i++ {
+			nodes = append(nodes, srcNode{Path: "/c" + hx.I(i), Redirect: true, Status: []int{301, 302, 307, 308}[i%4],
+				Location: "/c" + hx.I((i+1)%12), Intended: (i + 1) % 12})
+		}
+		c = srcFixed(nodes, []hx.RuleSpec{{Host: srcEdge, Path: "/*", Dest: "http://d0.test/$1", Cache: "c1", RestartOnRedirect: true}},
+			[]srcOp{{Kind: 'R', Target: "/c0", Start: 0}, {Kind: 'R', Target: "/c0", Start: 0}, {Kind: 'R', Target: "/c5", Start: 5}})
+	case 4:
+		// the counter at the Found site below a WRITER: the 2-cycle is in the cache, /x (cold) leads
+		// into it.  The 508 written at the Found site is the client's answer; /x's own hop is stored
+		// while the stack unwinds, so the repeat is answered 508 without any contact.
+		c = srcFixed([]srcNode{{Path: "/a", Redirect: true, Location: "http://h.test/f/b", Intended: 1}, {Path: "/b", Redirect: true, Location: "http://h.test/f/a", Intended: 0},
+			{Path: "/x", Redirect: true, Status: 307, Location: "http://h.test/f/a", Intended: 0}},
+			srcSharedRules(false), []srcOp{{Kind: 'R', Target: "/p/a", Start: 0}, {Kind: 'R', Target: "/p/b", Start: 1}, {Kind: 'R', Target: "/f/x", Start: 2}, {Kind: 'R', Target: "/f/x", Start: 2}})
 	case 0:
 		// 2-cycle, filled hop by hop through the non-restarting prefix, then read through the restarting one
 		c = srcFixed([]srcNode{{Path: "/a", Redirect: true, Location: "http://h.test/f/b", Intended: 1}, {Path: "/b", Redirect: true, Location: "http://h.test/f/a", Intended: 0}},
